@@ -278,6 +278,12 @@ def mutate(
     else:
         # No exception was caught, so write the output file(s)
 
+        # Serialize and encode the simfile before opening any file for writing:
+        # opening the output truncates it, so a simfile that can't be saved
+        # must fail here, while the files on disk are still untouched
+        output_data = str(simfile)
+        output_data.encode(encoding)
+
         # Write backup file if requested
         if backup_filename:
             with filesystem.open(
@@ -289,4 +295,4 @@ def mutate(
         with filesystem.open(
             output_filename or input_filename, "w", encoding=encoding, **kwargs
         ) as writer:
-            simfile.serialize(cast(TextIO, writer))
+            writer.write(output_data)
